@@ -107,12 +107,20 @@ func init() {
 	}
 	intrinsics[rtPkg+"LoopStep"] = func(in *Interp, fr *frame, args []value) (res value) {
 		in.loopPost = map[string]value{}
+		in.loopBlocked = false
 		returned := true
 		func() {
 			defer func() {
 				if r := recover(); r != nil {
 					if _, ok := r.(loopBackEdge); ok {
 						returned = false
+						return
+					}
+					if _, ok := r.(deadlockErr); ok && in.cur.isMain {
+						// the iteration ended blocked (nothing to select on): it waits
+						returned = false
+						in.loopBlocked = true
+						in.cur.blocked = nil
 						return
 					}
 					panic(r)
@@ -137,6 +145,7 @@ func init() {
 		}
 		return v
 	}
+	intrinsics[rtPkg+"LoopBlocked"] = func(in *Interp, fr *frame, args []value) value { return in.tt.Bool(in.loopBlocked) }
 	for _, n := range []string{"LoopPostInt", "LoopPostInt64", "LoopPostUint64", "LoopPostBool", "LoopPostInt32"} {
 		intrinsics[rtPkg+n] = post
 	}
